@@ -500,7 +500,7 @@ def c13(run):
 
 
 def c14(run):
-    return generic_check(run, [("MC_map_w2entry.cfg", "MC_map.tla", {"timeout": 300})], [],
+    return generic_check(run, [("MC_map_w2entry.cfg", "MC_map.tla", {"timeout": 300})], [("MC_map_w2entryip.cfg", "MC_map.tla", {"timeout": 1500, "workers": 12})],
         [("entry", ["map:kv16:collide:24:1500:entry", "map:kv16:zero:12:800:entry"]),
          ("entry2", ["map:k4v4:onegroup:14:800:entry", "set:k8t:collide:20:600:set"]),
          ("entrywrap", ["map:kv16:spread:26:1500:entry", "map:kv16:wrap:30:800:entry", "map:kv16:spread:60:800:entry"])],
